@@ -464,8 +464,22 @@ func doEvent(w tk.CodeArea, e event) (ret bool, panicked bool) {
 	panic("bad event kind")
 }
 
+// tableRunes: the runes the op's table covers.
+func tableRunes(tbl string) map[rune]bool {
+	set := map[rune]bool{}
+	if tbl == "-" {
+		return set
+	}
+	for _, e := range strings.Split(tbl, ",") {
+		r, _ := strconv.Atoi(e[:strings.IndexByte(e, ':')])
+		set[rune(r)] = true
+	}
+	return set
+}
+
 func implSeq(f []string) string {
 	op := decSeq(f)
+	covered := tableRunes(f[8])
 	w := tk.NewCodeArea(tk.CodeAreaSpec{
 		SimpleAbbreviations:    lister(op.S),
 		CommandAbbreviations:   lister(op.C),
@@ -481,6 +495,14 @@ func implSeq(f []string) string {
 			break
 		}
 		st := w.CopyState()
+		// In the malformed stream deleting bytes can join fragments into a rune
+		// the table (built from the inputs) does not cover; the Lean driver
+		// reports the same condition the same way.
+		for _, r := range st.Buffer.Content {
+			if !covered[r] {
+				return "bad-table"
+			}
+		}
 		ins, last, pasting, pb := tk.VerifCodeAreaInternals(w)
 		out = append(out, fmt.Sprintf("%v:%s:%d:%s:%s:%d:%v:%s", ret, common.Hex(st.Buffer.Content), st.Buffer.Dot,
 			common.Hex(ins), common.Hex(last.Content), last.Dot, pasting, common.Hex(pb)))
@@ -918,6 +940,11 @@ func oracle(_ any, f []string, out string) (string, string) {
 		if !seqInQuantifier(op) {
 			return "", ""
 		}
+		if out == "bad-table" {
+			// cannot happen for valid inputs (every rune of every intermediate
+			// buffer comes from the inputs); if it does the harness is wrong
+			return "harness-table-miss", "a rune of an intermediate buffer is missing from the op's table"
+		}
 		return walkSeq(op, out, func(string) {})
 	}
 	return "", ""
@@ -966,6 +993,9 @@ func tag(f []string, out string) string {
 		return "ball:exhaustive"
 	case "seq":
 		op := decSeq(f)
+		if out == "bad-table" {
+			return "seq:table-miss(malformed)"
+		}
 		if strings.Contains(out, "PANIC") {
 			return "seq:panic"
 		}
